@@ -39,7 +39,7 @@ fn watched(body: fn()) {
     let b = std::sync::Arc::new(Beat { n: std::sync::atomic::AtomicU64::new(0), last: std::sync::Mutex::new(Vec::new()) });
     let b2 = b.clone();
     let (tx, rx) = std::sync::mpsc::channel();
-    std::thread::Builder::new().stack_size(16 << 20).spawn(move || {
+    std::thread::Builder::new().name(std::thread::current().name().unwrap_or("vp_native").to_string()).stack_size(16 << 20).spawn(move || {
         BEAT.with(|x| *x.borrow_mut() = Some(b2));
         let r = std::panic::catch_unwind(body);
         let _ = tx.send(r);
